@@ -464,7 +464,7 @@ func check(sc Scenario, events []event, logs [][]simprom.Request, simDur time.Du
 		fmt.Fprintf(digest, "%d.%d:%v:%s;", ev.Caller, ev.Idx, ev.Answers, ev.Err)
 		if ev.Err != "" {
 			out.Probes["op_error"]++
-			if ev.Op.CancelAfterNs > 0 && (strings.Contains(ev.Err, "context deadline exceeded") || strings.Contains(ev.Err, "context canceled")) {
+			if ev.Op.CancelAfterNs > 0 && (strings.Contains(ev.Err, "timeout") || strings.Contains(ev.Err, "context")) {
 				out.Probes["caller_cancelled"]++
 			}
 			continue
